@@ -18,7 +18,10 @@
 (***************************************************************************)
 EXTENDS Naturals, Sequences, FiniteSets, TLC
 
-CONSTANTS SortedIteration     \* TRUE: set-valued steps are lowered in sorted order (as repaired)
+CONSTANTS SortedIteration,    \* TRUE: set-valued steps are lowered in sorted order (as repaired)
+          CloneIsolated       \* TRUE: the preview works on a private copy of the tracked
+                              \* database state; FALSE: what it records leaks into the state
+                              \* the execution is generated from
 
 VARIABLES steps,   \* the pending upgrade: sequence of [kind, entries]
           preview, \* statements computed by the preview run
@@ -27,7 +30,9 @@ VARIABLES steps,   \* the pending upgrade: sequence of [kind, entries]
 vars == <<steps, preview, exec>>
 
 Entries == {1, 2, 3}
-StepKinds == { [kind |-> "fixed", entries |-> {}] }
+(* "index": CREATE INDEX unless the tracked database state already has it; the step
+   records the index in the state it was generated from *)
+StepKinds == { [kind |-> "fixed", entries |-> {}], [kind |-> "index", entries |-> {}] }
              \cup { [kind |-> "set", entries |-> S] : S \in (SUBSET Entries) \ {{}} }
 
 RECURSIVE Perms(_)
@@ -37,25 +42,32 @@ RECURSIVE Sorted(_)
 Sorted(S) == IF S = {} THEN <<>>
              ELSE LET m == CHOOSE x \in S : \A y \in S : x <= y IN <<m>> \o Sorted(S \ {m})
 
-(* all statement sequences one lowering of a step may produce *)
-LowerStep(i, st) ==
+(* all statement sequences one lowering of a step may produce; `tracked`: indexes the
+   database state has at this point *)
+LowerStep(i, st, tracked) ==
     IF st.kind = "fixed" THEN { << <<i, 0>> >> }
+    ELSE IF st.kind = "index" THEN (IF i \in tracked THEN { <<>> } ELSE { << <<i, 0>> >> })
     ELSE IF SortedIteration THEN { [k \in 1..Cardinality(st.entries) |-> <<i, Sorted(st.entries)[k]>>] }
     ELSE { [k \in 1..Len(p) |-> <<i, p[k]>>] : p \in Perms(st.entries) }
 
-RECURSIVE LowerAll(_, _)
-LowerAll(i, ss) == IF ss = <<>> THEN { <<>> }
-                   ELSE { a \o b : a \in LowerStep(i, Head(ss)), b \in LowerAll(i + 1, Tail(ss)) }
+RECURSIVE LowerAll(_, _, _)
+LowerAll(i, ss, tracked) ==
+    IF ss = <<>> THEN { <<>> }
+    ELSE { a \o b : a \in LowerStep(i, Head(ss), tracked), b \in LowerAll(i + 1, Tail(ss), tracked) }
+(* indexes a lowering run records in the state it works on *)
+Recorded(ss) == { i \in 1..Len(ss) : ss[i].kind = "index" }
 
 Init == /\ steps \in { <<a>> : a \in StepKinds } \cup { <<a, b>> : a \in StepKinds, b \in StepKinds }
-        /\ preview \in LowerAll(1, steps)
-        /\ exec \in LowerAll(1, steps)
+        \* prepare() generates the preview first, on a clone of the state; batch building then
+        \* generates what is executed, on the evolver's own state
+        /\ preview \in LowerAll(1, steps, {})
+        /\ exec \in LowerAll(1, steps, IF CloneIsolated THEN {} ELSE Recorded(steps))
 Next == UNCHANGED vars
 Spec == Init /\ [][Next]_vars
 
 (* C14 *)
 PreviewEqualsExecution == preview = exec
-LoweringDeterministic == Cardinality(LowerAll(1, steps)) = 1
+LoweringDeterministic == Cardinality(LowerAll(1, steps, {})) = 1
 (* the hazard the replay looks for: a set-valued step with two or more entries *)
 HasMultiEntrySet == \E i \in 1..Len(steps) : Cardinality(steps[i].entries) >= 2
 NondeterminismOnlyFromSets == (~LoweringDeterministic) => HasMultiEntrySet
